@@ -149,6 +149,7 @@ type Exec struct {
 	recoverSlot  **goPanic
 	guessCache   map[string]*Term
 	nAsserts     int
+	nWitness     int
 	strictInit   map[*ssa.Package]bool
 	initSkips    []string
 	funcsSeen    map[string]bool
@@ -537,6 +538,21 @@ func (e *Exec) runPath(fn *ssa.Function, args []Value) (res PathResult) {
 	}()
 	e.callFn(fn, args)
 	res.Status = "ok"
+	// a few completed paths are turned into concrete witnesses that the driver
+	// replays natively: the real build must take the same path (validates the encoding)
+	if e.nWitness < 3 && len(e.reached) > 0 {
+		e.nWitness++
+		n := len(e.violations)
+		e.knownRegion = ""
+		e.reportViolation("witness", fmt.Sprintf("witness-%d", e.nWitness), "", nil)
+		if len(e.violations) > n {
+			w := &e.violations[len(e.violations)-1]
+			for t := range e.reached {
+				w.Stack = append(w.Stack, t)
+			}
+			sort.Strings(w.Stack)
+		}
+	}
 	return
 }
 
